@@ -102,6 +102,8 @@ class Views(VC):
         o2, r2 = run_entry(I, ctx, fn(I, "query_owner_allowances", CRATE), [deps, owner, NONE, Some(30)], pre)
         o3, r3 = run_entry(I, ctx, fn(I, "query_spender_allowances", CRATE), [deps, spender, NONE, Some(30)], pre)
         ob.outcome = f"{o1}/{o2}/{o3}"
+        ob.info["replay"] = dict(contract=CRATE, entry="query", crate=CRATE, env=env, info=None, msg=EnumV("QueryMsg", "AllAllowances", [owner, NONE, Some(30)], ["owner", "start_after", "limit"]),
+                                 msg_ty="msg::QueryMsg", pre_storage=pre, post_storage=pre, outcome=o2, result=r2 if o2 == "Ok" else None, result_ty="AllAllowancesResponse", querier=None)
         if (o1, o2, o3) != ("Ok", "Ok", "Ok"): return
         p, v = pre["allowance"].get(ctx, (owner, spender))
         single = (r1.get("allowance"), r1.get("expires"))
